@@ -119,6 +119,9 @@ func NewWebApp(c WebCfg) *WebApp {
 		id.SetAuthTime(time.Unix(1700000000, 0).UTC())
 		id.SetExpiry(time.Unix(1700003600, 0).UTC())
 		id.SetAttribute("custom", "value-"+q.Get("user"))
+		id.SetAttribute("list", []string{"10.1.1.1", "10.2.2.2"})
+		id.SetAttribute("num", int64(7))
+		id.SetAttribute("raw", "J\xfcrgen") // not valid UTF-8: bytes, not text
 		id.SetAttribute(identity.AttrAccessToken, "at-"+q.Get("user"))
 		if err := web.SaveSessionIdentity(r, w, id); err != nil {
 			w.WriteHeader(500)
@@ -128,7 +131,8 @@ func NewWebApp(c WebCfg) *WebApp {
 		id := identity.FromRequestCtx(r)
 		custom, _ := id.GetAttribute("custom").(string)
 		at, _ := id.GetAttribute(identity.AttrAccessToken).(string)
-		json.NewEncoder(w).Encode(map[string]any{"user": id.UserName(), "display": id.DisplayName(), "domain": id.Domain(), "email": id.Email(), "authenticated": id.Authenticated(),
+		typed := func(k string) string { return fmt.Sprintf("%T|%x", id.GetAttribute(k), fmt.Sprint(id.GetAttribute(k))) }
+		json.NewEncoder(w).Encode(map[string]any{"list": typed("list"), "num": typed("num"), "raw": typed("raw"), "user_hex": fmt.Sprintf("%x", id.UserName()), "user": id.UserName(), "display": id.DisplayName(), "domain": id.Domain(), "email": id.Email(), "authenticated": id.Authenticated(),
 			"auth_time": id.AuthTime().Unix(), "expiry": id.Expiry().Unix(), "custom": custom, "access_token": at, "session": id.SessionId()})
 	})
 	return &WebApp{Router: r, OIDC: o, IdP: idp}
